@@ -614,10 +614,10 @@ def gen_sized(rng, name, target, pools=None):
 # also pad to 2/4/8 byte boundaries, sometimes with non-null bytes.  The repository's writer never pads, so this is an
 # encoder of its own.  With TIF markers the `next` pointer skips the padding (any scheme is readable); without TIF the
 # reader can only resynchronise on padding to a multiple of 2 or 4 bytes, and with non-null bytes only modulo 2
-# (modulo-4 non-null padding ties with modulo 2 in the pad-option scan on some files: not generated as "valid").
+# (modulo-4 non-null padding used to tie with modulo 2 in the pad-option scan; identified since /repo 7ad9eab / 80d49da).
 
 PAD_SCHEMES_TIF = [('mod', 2), ('mod', 4), ('mod', 8), ('min', 64), ('min', 80), ('min', 128)]
-PAD_SCHEMES_PLAIN = [('mod', 2, False), ('mod', 4, False), ('mod', 2, True)]      # (kind, n, non-null allowed)
+PAD_SCHEMES_PLAIN = [('mod', 2, False), ('mod', 4, False), ('mod', 2, True), ('mod', 4, True)]      # (kind, n, non-null allowed)
 
 
 def build_padded_lis(lrs, tif, pr_max, pad, padval, attr_extra=0, trailer=(False, None, False)):
